@@ -37,7 +37,8 @@ class RefEval:
     """Reference evaluator. env: name -> float (or callable(name) -> float).
     Raises Fragile when a decision is too close to call or a value is not finite."""
 
-    def __init__(self, env, time=None, dt=None, start=None, stop=None, arrays=None, limit=1e12):
+    def __init__(self, env, time=None, dt=None, start=None, stop=None, arrays=None, limit=1e12, xmile=False):
+        self.xmile = xmile
         self.env = env
         self.time = time
         self.dt = dt
@@ -116,6 +117,8 @@ class RefEval:
                 elif op == "%":
                     if abs(r) < MARGIN:
                         raise Fragile("mod0")
+                    if self.xmile and (l < 0 or r <= 0):
+                        raise Fragile("mod-sign")  # XMILE tools disagree on the sign convention
                     q = l / r
                     self._apart(q, float(round(q)), "mod")
                     v = l % r
@@ -175,6 +178,36 @@ class RefEval:
                 if fn == "max":
                     self._apart(a[0], a[1], "max")
                     return max(a[0], a[1])
+                if fn == "ln":
+                    if a[0] <= MARGIN:
+                        raise Fragile("ln-domain")
+                    return math.log(a[0])
+                if fn == "log10":
+                    if a[0] <= MARGIN:
+                        raise Fragile("log-domain")
+                    return math.log10(a[0])
+                if fn == "int":
+                    if a[0] < 0:
+                        raise Fragile("int-negative")
+                    self._apart(a[0] + 0.5, float(round(a[0] + 0.5)) if abs(a[0] - round(a[0])) > 1e-12 else a[0] + 0.5, "int") if False else None
+                    if abs(a[0] - round(a[0])) < 1e-6 and a[0] != round(a[0]):
+                        raise Fragile("int-edge")
+                    return math.floor(a[0])
+                if fn == "percent":
+                    return a[0] * 100
+                if fn == "safediv":
+                    if a[1] == 0:
+                        return a[2] if len(a) > 2 else 0
+                    if abs(a[1]) < MARGIN:
+                        raise Fragile("safediv-near0")
+                    return a[0] / a[1]
+                if fn == "step":
+                    return a[0] if self.time >= a[1] else 0
+                if fn == "round" and len(a) == 1:
+                    frac = a[0] - math.floor(a[0])
+                    if abs(frac - 0.5) < 1e-3:
+                        raise Fragile("round-tie")
+                    return round(a[0])
                 if fn == "round":
                     d = a[1]
                     if d != int(d) or not (0 <= d <= 4):
